@@ -690,7 +690,7 @@ func TestC02(t *testing.T) {
 	defer r.Close(t)
 	r.Rule("cells: the benign single-cell values of C01 (every type x field x shape) and one everything-set value per type through every MarshalJSON method and package MarshalJSON; hostile: every string-typed " +
 		"position (ids, IRIs in item and list positions, href, rel, owner, key id, type, formerType, media types, language tags, hrefLang, units, key material, natural-language text single and map) x 40 hostile " +
-		"constants (quotes, backslashes, control characters, invalid UTF-8, JSON fragments, injection payloads); empties: lists of up to 3 members drawn from {IRI, object, empty object, empty link, empty IRI, nil, nil pointer, empty list} in 5 list properties and, up to 2 members, in every item/list property of every type whose other properties are all set (valid JSON, no repeated name, exactly the members that have something to say); random: values with several hostile strings. Oracle: independent tokenizer (one valid JSON value, " +
+		"constants (quotes, backslashes, control characters, invalid UTF-8, JSON fragments, injection payloads); default-lang: the text cells again with the package variable DefaultLang set to en / fr; empties: lists of up to 3 members drawn from {IRI, object, empty object, empty link, empty IRI, nil, nil pointer, empty list} in 5 list properties and, up to 2 members, in every item/list property of every type whose other properties are all set (valid JSON, no repeated name, exactly the members that have something to say); random: values with several hostile strings. Oracle: independent tokenizer (one valid JSON value, " +
 		"no repeated member names) + accounting walk of value and tree together by the jsonld tags (term, JSON kind, RFC 3339, xsd:duration by an independent parser, every string decodes to exactly the bytes " +
 		"held, no undeclared or unaccounted member). non-trivial = the value holds a string that needs escaping or a non-string kind; distinct by writer + canonical dump")
 	r.Assume("for byte strings that are not valid UTF-8 only validity, no duplicate member and no undeclared member are asserted (exact decoding is impossible in JSON)")
@@ -728,6 +728,39 @@ func TestC02(t *testing.T) {
 		}
 		r.Cells(2*(len(cells)+len(vocab.StructTypes)), done)
 		r.Exhaustive("cells", !r.Replaying())
+	}
+
+	// ---- the same text cells with the package's configurable default language set to a real tag: what the writers emit is a matter
+	// of the value, not of a setting meant for the convenience constructors
+	if r.WantLayer("default-lang", true) {
+		cells, _ := vocab.SingleCells(false)
+		saved := ap.DefaultLang
+		done, total := 0, 0
+		for _, dl := range []ap.LangRef{"en", "fr"} {
+			ap.DefaultLang = dl
+			for _, c := range cells {
+				if c.Field.Kind != vocab.KNLV {
+					continue
+				}
+				for _, w := range []string{"pkg", "method"} {
+					total++
+					id := fmt.Sprintf("DefaultLang=%s %s %s", dl, w, c.ID)
+					if !r.WantCell(id) {
+						continue
+					}
+					done++
+					ds, _ := c02Check(w, c.Value)
+					for k := range ds {
+						ds[k].Key += " default-lang"
+					}
+					r.Case(id, true, "default-lang")
+					reportAll(r, "default-lang", id, ds, vocab.Dump(c.Value))
+				}
+			}
+		}
+		ap.DefaultLang = saved
+		r.Cells(total, done)
+		r.Exhaustive("default-lang", !r.Replaying())
 	}
 
 	// ---- hostile enumeration: position x constant
